@@ -7,6 +7,7 @@ import (
 	"math"
 	"math/big"
 	"math/rand"
+	"os"
 	"testing"
 	"time"
 
@@ -356,9 +357,18 @@ func c17Sequence(r *report.R, id string) {
 			}
 			sumUsed += u
 			r.Count(fmt.Sprintf("seq_tx/kind%d/code%d", kind, res.Code), 1)
+			if os.Getenv("VERIF_DBG") != "" {
+				fmt.Printf("h=%d kind=%d gasLim=%d code=%d wanted=%d used=%d antePassed=%v log=%.80s\n", n.Height, kind, gasLim, res.Code, res.GasWanted, res.GasUsed, antePassed, res.Log)
+			}
 		}
 		n.EndBlock()
-		// the figure the next block must use
+		// the figure the next block must use; the gas used of a block is what its gas meter shows,
+		// and that meter stops at the block gas limit (the transaction that crosses it fails with
+		// "out of gas in location: block gas meter")
+		if maxGas > -1 && sumUsed > uint64(maxGas) {
+			sumUsed = uint64(maxGas)
+			r.Count("seq/blocks_at_block_gas_limit", 1)
+		}
 		gw := sdk.NewDec(int64(sumWanted)).Mul(mult).TruncateInt().Uint64()
 		prevG = gw
 		if sumUsed > gw {
